@@ -11,7 +11,7 @@ from ..sarr import SArr, patched, sarr
 from ..sym import R, SymInt, real, symint
 from . import kernel
 from . import mineral_h as mh
-from .common import all_eq, eq, np_installed, pydrex_modules, sample
+from .common import all_eq, eq, main_path, np_installed, pydrex_modules, sample
 
 TIMEOUT_MS = {"quick": 60000, "thorough": 300000}
 
@@ -59,8 +59,10 @@ def t_null_regimes(sess, n_grains):
 
         with np_installed(core):
             paths, info = sym.explore(fn)
-        if len(paths) != 1 or paths[0].exc is not None:
-            raise sym.HarnessError(f"unexpected paths {paths}")
+        p0 = main_path(sess, paths, f"regime {regime.name}")
+        if p0 is None:
+            continue
+        paths = [p0]
         dA, df = paths[0].value
         name = f"regime {regime.name}: orientation rates are identically zero"
         sess.satisfiable(f"{regime.name}: reach", paths[0].pc)
